@@ -10,7 +10,7 @@ from ..cfg import cfg_of
 from ..dag import T, walk
 from ..model import FunctionInfo, ClassInfo, AnalysisError, dotted
 from ..report import Ctx
-from ..util import norm, fn_body_nodes, walk_local, kwarg, parents
+from ..util import posarg, norm, fn_body_nodes, walk_local, kwarg, parents
 from .common import calls_named, arg_permutation_rule, names_in
 
 EXPLANATION = (
@@ -170,8 +170,8 @@ def rule_returns(ctx: Ctx, S: Search):
     # path is reconstructed from the start state to the popped state
     rp = calls_named(fi, "reconstruct_path")
     if rp:
-        a = rp[0].args
-        ok = len(a) == 3 and isinstance(a[2], ast.Name) and a[2].id == S.popped_state and isinstance(a[1], ast.Name)
+        a = [posarg(rp[0], i) for i in range(3)]        # by parameter, positional or keyword
+        ok = all(x is not None for x in a) and isinstance(a[2], ast.Name) and a[2].id == S.popped_state and isinstance(a[1], ast.Name)
         start_ok = None
         if ok:
             t = ctx.X.expr(fi, a[1])
